@@ -34,6 +34,10 @@ def run(rep, fb, tier):
     if tier == "thorough":
         isites = cs.kernel_sites(fb, api, inst=True)
         for fn in (cs.rule_errflow, cs.rule_fresh, cs.rule_role):
-            fn(rep, fb, sites=isites, floor=1)
+            rep.no_floor_table = True
+            try:
+                fn(rep, fb, sites=isites, floor=1)
+            finally:
+                rep.no_floor_table = False
             rep.rules[-1].name += "@instantiations"
     rep.units = fb.units
